@@ -84,6 +84,18 @@ def ser(x):
     return x
 
 
+def ser_raw(x):
+    """JSON-able form that keeps ints and floats as they are (used for the library's default arguments, which must be
+    restored with their own types)"""
+    if isinstance(x, (F, Ex)):
+        return ser(x)
+    if isinstance(x, dict):
+        return {str(k): ser_raw(v) for k, v in x.items()}
+    if isinstance(x, (list, tuple)):
+        return [ser_raw(v) for v in x]
+    return x
+
+
 def xsnap(o, skip=()):
     return snap(o, exact=True, skip=skip)
 
@@ -136,7 +148,7 @@ def mutable_defaults():
 
 
 def defaults_picture():
-    return {k: ser(xsnap(v[2])) for k, v in mutable_defaults().items()}
+    return {k: ser_raw(xsnap(v[2])) for k, v in mutable_defaults().items()}
 
 
 def constants_picture():
@@ -161,7 +173,7 @@ def check_defaults(pristine):
     gives the functions fresh pristine default objects (existing instances keep the mutated object)"""
     mutated = []
     for key, (f, idx, obj) in mutable_defaults().items():
-        if key in pristine and ser(xsnap(obj)) != pristine[key]:
+        if key in pristine and ser_raw(xsnap(obj)) != pristine[key]:
             mutated.append((key, obj))
             fresh = type(obj)(unser(pristine[key])) if not isinstance(obj, dict) else {_unkey(k): v for k, v in unser(pristine[key]).items()}
             if isinstance(idx, int):
@@ -297,7 +309,7 @@ def resolve(rig, p):
             p[k] = rig.vq(8, F(1, 10), F(10))
         elif k == "data_input_dict" and isinstance(v, (list, tuple)) and len(v) == 2 and v[0] == "monthly":
             p[k] = monthly(v[1])
-    if p.pop("monthly", False):
+    if p.pop("monthly", False) and "data_input_dict" not in p:
         p["data_input_dict"] = monthly()
     return p
 
@@ -1043,25 +1055,25 @@ def make_specs():
                                                                  ("percolation_residence_time", pick(r, 5, 20))) if r.random() < 0.7},
                       "over": lambda r, a, n, p: {"surface_residence_time": pick(r, 1, 3), "subsurface_residence_time": pick(r, 1, 4, 9),
                                                   "percolation_residence_time": pick(r, 2, 30)},
-                      "script": surface_script, "cls": "Land"}
+                      "script": surface_script, "cls": "Land", "days": 2}
     # ---- surfaces
     S["surface:Surface"] = {"make": surface_make("Surface"), "base": lambda r, a, n: surface_common_base(r, a, n, "depth"),
-                            "over": lambda r, a, n, p: surface_common_over(r, a, n, "depth"), "script": surface_script, "cls": "Surface"}
+                            "over": lambda r, a, n, p: surface_common_over(r, a, n, "depth"), "script": surface_script, "cls": "Surface", "days": 2}
     S["surface:ImperviousSurface"] = {"make": surface_make("ImperviousSurface"),
                                       "base": lambda r, a, n: dict(surface_common_base(r, a, n, "pore_depth"), **({"et0_to_e": pick(r, 0, F(1, 2), 1)} if r.random() < 0.6 else {})),
                                       "over": lambda r, a, n, p: dict(surface_common_over(r, a, n, "pore_depth"), et0_to_e=pick(r, 0, F(1, 4), 2)),
-                                      "script": surface_script, "cls": "ImperviousSurface"}
+                                      "script": surface_script, "cls": "ImperviousSurface", "days": 2}
     S["surface:PerviousSurface"] = {"make": surface_make("PerviousSurface"),
                                     "base": lambda r, a, n: dict(surface_common_base(r, a, n, "depth"), **pervious_extra_base(r)),
                                     "over": lambda r, a, n, p: dict(surface_common_over(r, a, n, "depth"), **pervious_extra_over(r)),
-                                    "script": surface_script, "cls": "PerviousSurface", "nonctor": set(PERV_NONCTOR)}
+                                    "script": surface_script, "cls": "PerviousSurface", "nonctor": set(PERV_NONCTOR), "days": 2}
     for t in ("GrowingSurface", "IrrigationSurface", "GardenSurface", "VariableAreaSurface"):
         irr = t == "IrrigationSurface"
         S["surface:" + t] = {"make": surface_make(t), "base": (lambda irr: lambda r, a, n: growing_base(r, a, n, irr))(irr),
                              "over": (lambda irr: lambda r, a, n, p: growing_over(r, a, n, irr))(irr), "script": surface_script, "cls": t,
-                             "nonctor": set(GROW_NONCTOR) | set(PERV_NONCTOR), "polsets": ["default"]}
+                             "nonctor": set(GROW_NONCTOR) | set(PERV_NONCTOR), "polsets": ["default"], "float_behaviour": True}
     S["pool:NutrientPool"] = {"make": pool_make, "base": pool_base, "over": pool_over, "script": surface_script, "cls": "NutrientPool",
-                              "polsets": ["default"], "dict_defaults": pool_defaults}
+                              "polsets": ["default"], "dict_defaults": pool_defaults, "float_behaviour": True}
     return S
 
 
@@ -1240,14 +1252,27 @@ def build(spec, params):
 
 
 def run_case(case, specs, controls, pristine):
-    """returns dict(problems, sigs, nontrivial)"""
+    """all checks of one case; returns dict(problems, sigs, nontrivial).  Light components: one pass in exact arithmetic.
+    Components whose simulation is too expensive in exact rationals (spec['float_behaviour']): an exact pass for the
+    snapshots (derived quantities, idempotence, cross-talk) without driving, and a float pass for the behaviour with
+    the rounding tolerance."""
     spec = specs[case["key"]]
+    if not spec.get("float_behaviour"):
+        return run_pass(case, spec, controls, pristine, True, case["script"][:spec.get("days", 4)], 0.0)
+    out = run_pass(case, spec, controls, pristine, True, [], 0.0)
+    out2 = run_pass(case, spec, controls, pristine, False, case["script"], 1e-9)
+    return {"problems": out["problems"] + ["[float pass] " + x for x in out2["problems"]], "sigs": out["sigs"] | out2["sigs"],
+            "nontrivial": out2["nontrivial"]}
+
+
+def run_pass(case, spec, controls, pristine, exact, script, tol):
     sigs, problems = set(), []
     out = {"problems": problems, "sigs": sigs, "nontrivial": False}
-    install_exact()
+    EXACT[0] = exact
+    (install_exact if exact else uninstall_exact)()
     NG.set_pollutants(case["polset"])
     try:
-        p, ovs, script = case["params"], case["overrides"], case["script"]
+        p, ovs = case["params"], case["overrides"]
         const0 = constants_picture()
         # everything that must exist BEFORE the override
         ref = build(spec, p)
@@ -1280,7 +1305,7 @@ def run_case(case, specs, controls, pristine):
         twin = build(spec, q)
         # ---- (b) idempotence of the snapshot (before any repair)
         for i in (1, 2):
-            d = diff(pics[0], pics[i], 0.0)
+            d = diff(pics[0], pics[i], tol)
             if d:
                 if all(".wrap_depth" in x[0] for x in d) and "Distribution" in spec["cls"]:
                     sigs.add("distribution-leakage-rewrapped")
@@ -1289,16 +1314,16 @@ def run_case(case, specs, controls, pristine):
         # ---- (a) as constructed
         for label, rig in (("overridden once", a), ("overridden three times", b)):
             repair(spec, rig.target, twin.target, sigs)
-            d = diff(tpicture(spec, rig.target), tpicture(spec, twin.target), 0.0)
+            d = diff(tpicture(spec, rig.target), tpicture(spec, twin.target), tol)
             if d:
                 problems.append(f"as-constructed: snapshot of the component {label} differs from a twin constructed with the values: {fmt_diffs(d)}")
         tt = twin.drive(script)
-        out["nontrivial"] = bool(ovs[0]) and bool(diff(tt, trace0, 0.0, limit=1))
+        out["nontrivial"] = bool(ovs[0]) and bool(script) and bool(diff(tt, trace0, 0.0, limit=1))
         for label, rig in (("overridden once", a), ("overridden three times", b)):
             tr = rig.drive(script)
-            d = diff(tr, tt, 0.0)
+            d = diff(tr, tt, tol)
             if d:
-                problems.append(f"behaviour of the component {label} differs from the twin's: {fmt_diffs(d)} (op index in path; script in payload)")
+                problems.append(f"behaviour of the component {label} differs from the twin's: {fmt_diffs(d)} (trace index in path; script in payload)")
         # ---- (c) bystanders
         dz = diff(zoo0, zoo_picture(zoo), 0.0)
         ds = diff(sib0, sib.picture(), 0.0)
@@ -1329,6 +1354,7 @@ def run_case(case, specs, controls, pristine):
             pass
     finally:
         NG.set_pollutants("default")
+        EXACT[0] = True
     return out
 
 
